@@ -654,6 +654,58 @@ func (in *inliner) hoistArg(e ast.Expr) ([]ast.Stmt, bool) {
 	return pre, true
 }
 
+// hoistInExpr: e is built from one helper call and operands no helper can reach, with operators that evaluate all
+// their operands (no && / ||, no address-of): the call is expanded in front and replaced by its result.
+func (in *inliner) hoistInExpr(e *ast.Expr) ([]ast.Stmt, bool) {
+	var slot *ast.Expr
+	calls, ok := 0, true
+	var walk func(pe *ast.Expr)
+	walk = func(pe *ast.Expr) {
+		if !ok {
+			return
+		}
+		switch x := (*pe).(type) {
+		case *ast.ParenExpr:
+			walk(&x.X)
+		case *ast.BinaryExpr:
+			if x.Op == token.LAND || x.Op == token.LOR {
+				ok = false
+				return
+			}
+			walk(&x.X)
+			walk(&x.Y)
+		case *ast.UnaryExpr:
+			if x.Op == token.AND || x.Op == token.ARROW {
+				ok = false
+				return
+			}
+			walk(&x.X)
+		case *ast.CallExpr:
+			if c, _, _ := in.callIn(x); c != nil {
+				calls++
+				slot = pe
+				return
+			}
+			ok = false
+		default:
+			if !in.pureOperand(*pe) {
+				ok = false
+			}
+		}
+	}
+	walk(e)
+	if !ok || calls != 1 || slot == nil || slot == e {
+		return nil, false
+	}
+	call, fn, recv := in.callIn(*slot)
+	pre, res, okE := in.expand(call, fn, recv)
+	if !okE || len(res) != 1 {
+		return nil, false
+	}
+	*slot = res[0]
+	return pre, true
+}
+
 func astIdentOf(e ast.Expr) *ast.Ident {
 	id, _ := ast.Unparen(e).(*ast.Ident)
 	return id
@@ -704,6 +756,9 @@ func (in *inliner) rewriteStmt(s ast.Stmt) ([]ast.Stmt, bool) {
 				if pre, ok := in.hoistArg(x.Rhs[0]); ok {
 					return append(pre, x), true
 				}
+				if pre, ok := in.hoistInExpr(&x.Rhs[0]); ok {
+					return append(pre, x), true
+				}
 			}
 		}
 	case *ast.ExprStmt:
@@ -718,6 +773,32 @@ func (in *inliner) rewriteStmt(s ast.Stmt) ([]ast.Stmt, bool) {
 			return append(pre, x), true
 		}
 	case *ast.ReturnStmt:
+		// return <expression over one helper call>, <pure>…
+		{
+			at, others := -1, true
+			for i := range x.Results {
+				if c, _, _ := in.callIn(x.Results[i]); c != nil {
+					others = false // handled below
+					break
+				}
+				if in.pureAt(x.Results[i]) {
+					continue
+				}
+				if at >= 0 {
+					others = false
+					break
+				}
+				at = i
+			}
+			if others && at >= 0 {
+				if pre, ok := in.hoistInExpr(&x.Results[at]); ok {
+					return append(pre, x), true
+				}
+				if pre, ok := in.hoistArg(x.Results[at]); ok {
+					return append(pre, x), true
+				}
+			}
+		}
 		// return f(args)  (possibly forwarding a tuple), or return f(args), <pure>…
 		calls, at := 0, -1
 		for i, e := range x.Results {
